@@ -95,6 +95,15 @@ def lazy(sym, name, N, nsym):
                 check(s.pulls == 0, name + ': constructing the pipeline read data rows from the ' + nm, s.pulls)
             if stream is not True:
                 return
+            # consulting the header of the new view (what natural joins, record* set operations and the *all functions do
+            # at construction) reads no data row beyond the catalogued look-ahead
+            for v0 in _views(res, kind):
+                if kind in ('table', 'pair'):
+                    petl.header(v0)
+                    petl.convertall(v0, str)
+                    petl.fieldnames(v0)
+            check(src.pulls <= max(src.iters, 1) * look, name + ': consulting the header of the view read data rows', src.pulls, look)
+            src.pulls = 0
             views = _views(res, kind)
             members = opts.get('members', list(range(len(views))))
             idx = members[sym.choice('member', len(members))]
@@ -114,14 +123,18 @@ def display(sym, fn, N):
     limit = sym.choice('limit', 4) + 1
     src = CountingSource([list(HDR)] + [[i, i * 10, 'x,y'] for i in range(n)])
     if fn == 'look':
-        s = str(petl.look(src, limit=limit))
+        s = str(petl.look(src, limit=limit, style=sym.pick('style', ['grid', 'simple', 'minimal'])))
     elif fn == 'see':
         s = str(petl.see(src, limit=limit))
     elif fn == 'repr':
         saved = petl.config.look_limit
         petl.config.look_limit = limit
         try:
-            s = repr(petl.wrap(src))
+            petl.config.look_style, saved_style = sym.pick('style', ['grid', 'simple', 'minimal']), petl.config.look_style
+            try:
+                s = repr(petl.wrap(src))
+            finally:
+                petl.config.look_style = saved_style
         finally:
             petl.config.look_limit = saved
     elif fn == 'head-nrows':
